@@ -4,6 +4,7 @@ import (
 	"fmt"
 	"go/ast"
 	"go/token"
+	"go/types"
 	"regexp"
 	"strings"
 
@@ -89,8 +90,10 @@ func scanGuard(c *core.Ctx) []ob {
 		return nil
 	}
 	decls := map[string]*ast.FuncDecl{}
+	declInfo := map[*ast.FuncDecl]*types.Info{}
 	c.FuncDecls(func(pk *packages.Package, file *ast.File, fd *ast.FuncDecl) {
 		decls[core.FuncKey(pk, fd)] = fd
+		declInfo[fd] = pk.TypesInfo
 	})
 	n := 0
 	for i, g := range guardTable {
@@ -166,8 +169,20 @@ func scanGuard(c *core.Ctx) []ob {
 				}
 				// the error may be produced by the then-branch, or (for `!= nil {..} else {return err}`) by the else branch
 				leaves := leavesWithError(is.Body)
+				inverted := false
 				if eb, ok := is.Else.(*ast.BlockStmt); ok && leavesWithError(eb) {
+					inverted = !leaves
 					leaves = true
+				}
+				// `if a == b { …; return … }` followed by the failing return: the refusal of a != b, spelled positively
+				if is.Else == nil && terminates(is.Body.List) {
+					if blk, ok := parentMapCached(fd)[ast.Node(is)].(*ast.BlockStmt); ok {
+						for i, st := range blk.List {
+							if st == ast.Stmt(is) && i+1 < len(blk.List) && leavesWithError(&ast.BlockStmt{List: blk.List[i+1:]}) {
+								leaves, inverted = true, true
+							}
+						}
+					}
 				}
 				if !leaves {
 					return true
@@ -300,6 +315,9 @@ func scanGuard(c *core.Ctx) []ob {
 									if v.Op == o {
 										opOK = true
 									}
+									if inverted && (o == token.NEQ && v.Op == token.EQL || o == token.EQL && v.Op == token.NEQ) {
+										opOK = true
+									}
 									continue
 								}
 								// ordering comparisons: the sides matter, and the mirrored spelling (b > a for a < b) is the same test
@@ -337,6 +355,12 @@ func scanGuard(c *core.Ctx) []ob {
 			})
 		}
 		pos := c.Rel(fd.Pos())
+		if !found && len(g.tokens) == 2 && guardThroughFunctionValue(declInfo[fd], fd, g.tokens) {
+			// the comparison is made through a function value applied to both operands (a table of accessors walked by
+			// a loop): which quantities are compared is data, not code — nothing this table can decide
+			out = append(out, withProps(infoOb("GUARD", key, pos, g.why+": the function compares its operands through a function value (table of accessors); not decided"), g.props...))
+			continue
+		}
 		if found {
 			out = append(out, withProps(okOb("GUARD", key, pos, g.why+": checked and reported as an error", true), g.props...))
 		} else {
@@ -425,4 +449,69 @@ func expandLocals(fd *ast.FuncDecl, at ast.Node, e ast.Expr, depth int) string {
 		return exprString(x.Fun) + "(" + strings.Join(as, ", ") + ")"
 	}
 	return exprString(e)
+}
+
+// guardThroughFunctionValue: the function has a failing guard whose condition applies one function value (a field or
+// variable of function type, not a declared function) to expressions rooted at the two operands the entry names.
+func guardThroughFunctionValue(info *types.Info, fd *ast.FuncDecl, tokens []string) bool {
+	rootName := func(tok string) string {
+		tok = strings.TrimPrefix(tok, "re:")
+		for i, r := range tok {
+			if !(r == '_' || r >= 'a' && r <= 'z' || r >= 'A' && r <= 'Z' || r >= '0' && r <= '9') {
+				return tok[:i]
+			}
+		}
+		return tok
+	}
+	a, b := rootName(tokens[0]), rootName(tokens[1])
+	if a == "" || b == "" || a == b {
+		return false
+	}
+	found := false
+	ast.Inspect(fd.Body, func(x ast.Node) bool {
+		is, ok := x.(*ast.IfStmt)
+		if !ok || found {
+			return !found
+		}
+		if !leavesWithError(is.Body) {
+			return true
+		}
+		scope := ast.Node(is.Cond)
+		seen := map[string]map[string]bool{} // function value text -> roots of its arguments
+		visit := func(nd ast.Node) {
+			ast.Inspect(nd, func(y ast.Node) bool {
+				call, ok := y.(*ast.CallExpr)
+				if !ok || len(call.Args) == 0 {
+					return true
+				}
+				if calleeFunc(info, call) != nil {
+					return true
+				}
+				if _, isSig := info.TypeOf(call.Fun).Underlying().(*types.Signature); !isSig {
+					return true
+				}
+				key := exprString(call.Fun)
+				for _, arg := range call.Args {
+					if r := rootIdent(arg); r != nil {
+						if seen[key] == nil {
+							seen[key] = map[string]bool{}
+						}
+						seen[key][r.Name] = true
+					}
+				}
+				return true
+			})
+		}
+		visit(scope)
+		if is.Init != nil {
+			visit(is.Init)
+		}
+		for _, roots := range seen {
+			if roots[a] && roots[b] {
+				found = true
+			}
+		}
+		return !found
+	})
+	return found
 }
